@@ -487,7 +487,11 @@ func c03Gen(c int) *c03Case {
 	if rnd.IntN(3) == 0 {
 		cfg.capacity = 1000
 	}
-	switch rnd.IntN(8) {
+	direct := false // no sending queue and no batcher: Send runs obsreport -> retry -> timeout -> export on the caller's goroutine
+	switch rnd.IntN(9) {
+	case 8:
+		direct = true
+		cfg.queue = false
 	case 0, 1: // memory queue, no batching
 		if rnd.IntN(3) == 0 {
 			cfg.sizer = "items"
@@ -559,6 +563,13 @@ func c03Gen(c int) *c03Case {
 		cfg.maxElapsed = []time.Duration{0, 10 * time.Second}[rnd.IntN(2)]
 		cfg.timeout = 0
 	}
+	if direct {
+		cfg.block = false
+		cfg.retry = rnd.IntN(3) != 0
+		cfg.initial = []time.Duration{10 * time.Millisecond, 100 * time.Millisecond, time.Second}[rnd.IntN(3)]
+		cfg.maxElapsed = []time.Duration{0, 0, 10 * time.Second}[rnd.IntN(3)]
+		cfg.timeout = []time.Duration{0, 2 * time.Second}[rnd.IntN(2)]
+	}
 	cfg.signal = []int{c03SigLogs, c03SigLogs, c03SigTraces, c03SigMetrics}[rnd.IntN(4)]
 	cfg.wrap = rnd.IntN(4) != 0
 	// actions
@@ -600,8 +611,21 @@ func c03Gen(c int) *c03Case {
 		}
 		sd = t + time.Duration(1+rnd.IntN(400))*time.Millisecond
 	}
+	if direct {
+		// 1-3 producers call Send almost together and are retrying against a failing backend when Shutdown is requested
+		cs.acts = cs.acts[:1+rnd.IntN(min(3, len(cs.acts)))]
+		t = 0
+		for i := range cs.acts {
+			t += time.Duration(rnd.IntN(3)) * time.Millisecond
+			cs.acts[i].at = t
+		}
+		// off the millisecond grid: a Shutdown in the very instant a back-off timer fires is a tie the retry loop's select resolves
+		// at random (one more attempt may start; with a queue Shutdown waits for it, without one it begins after the return) —
+		// scheduler-dependent, excluded like the ties of property C05
+		sd = t + time.Duration(1+rnd.IntN(2000))*time.Millisecond + 137*time.Microsecond + time.Nanosecond
+	}
 	cs.acts = append(cs.acts, c03Act{at: sd, shutdown: true})
-	for i := 0; i < rnd.IntN(3); i++ { // late sends
+	for i := 0; i < rnd.IntN(3) && !direct; i++ { // late sends (a Send after Shutdown of a queue-less exporter is the caller's export call)
 		cs.acts = append(cs.acts, c03Act{at: sd + c03Gaps[rnd.IntN(len(c03Gaps))], rid: nSend + 1 + i, n: 1 + rnd.IntN(4)})
 	}
 	sort.SliceStable(cs.acts, func(i, j int) bool { return cs.acts[i].at < cs.acts[j].at })
@@ -614,8 +638,20 @@ func c03Gen(c int) *c03Case {
 	if overlap {
 		nb = 4 + rnd.IntN(8)
 	}
+	if direct {
+		nb = 10 + rnd.IntN(30)
+		failPct = []int{60, 90, 100}[rnd.IntN(3)]
+	}
 	for i := 0; i < nb; i++ {
 		call := c03Call{dur: c03Durs[rnd.IntN(len(c03Durs))]}
+		if direct {
+			call = c03Call{dur: []time.Duration{0, 0, 5 * time.Millisecond, 3 * time.Second}[rnd.IntN(4)]}
+			if rnd.IntN(100) < failPct {
+				call.outcome = 1
+			}
+			cs.backend = append(cs.backend, call)
+			continue
+		}
 		if overlap {
 			if rnd.IntN(2) == 0 {
 				call = c03Call{dur: 0, outcome: 1} // fails at once: goes into back-off
@@ -682,6 +718,11 @@ func c03Corpus() []*c03Case {
 		// same with three consumers, the later completions are a permanent failure and a success
 		{cfg: c03Cfg{queue: true, persistent: true, sizer: "requests", capacity: 100, consumers: 3, retry: true, initial: time.Second, wrap: true, signal: c03SigTraces},
 			acts: []c03Act{send(0, 1, 1), send(ms, 2, 3), send(2*ms, 3, 2), sd(200 * ms)}, backend: []c03Call{{0, 1}, {3 * time.Second, 2}, {100 * ms + 3*time.Second, 0}}},
+		// no sending queue, no batcher, retry enabled: two producers are retrying against a failing backend when Shutdown is
+		// requested; the retry sender must be stopped, no export call may begin after Shutdown has returned
+		{cfg: c03Cfg{queue: false, sizer: "requests", capacity: 1, consumers: 1, retry: true, initial: time.Second},
+			acts:    []c03Act{send(0, 1, 2), send(ms, 2, 3), sd(500 * ms)},
+			backend: []c03Call{{0, 1}, {0, 1}, {0, 1}, {0, 1}, {0, 1}, {0, 1}, {0, 1}, {0, 1}, {0, 1}, {0, 1}, {0, 1}, {0, 1}}},
 		// shutdown exactly when the flush timer fires
 		{cfg: c03Cfg{queue: true, sizer: "items", capacity: 10000, consumers: 1, batch: 1, flushTO: 30 * ms, minSize: 40},
 			acts: []c03Act{send(0, 1, 3), sd(30 * ms), send(30*ms, 2, 2)}, backend: []c03Call{{5 * ms, 0}}},
@@ -1034,7 +1075,8 @@ func c03Judge(cs *c03Case, run *c03Run) c03Verdict {
 					failedFor[x] = true
 				}
 			}
-			if !ended[e.id] {
+			if !ended[e.id] && (cs.cfg.queue || cs.cfg.batch != 0) {
+				// without queue and batcher the export call runs on the caller's goroutine: not a helper's call
 				v.openCalls = append(v.openCalls, e.id)
 			}
 			// finished (returned) before shutdown was requested?
@@ -1204,6 +1246,9 @@ func c03Emit(out *vOut, idx int, cs *c03Case, run *c03Run) {
 	kind := "memory"
 	if c.persistent {
 		kind = "persistent"
+	}
+	if !c.queue && c.batch == 0 {
+		kind = "direct"
 	}
 	switch {
 	case run.hung || !v.returned:
